@@ -243,7 +243,12 @@ def gen_case(world, tier, prop):
     for nm in list(sv.pk) + list(sv.ko):
       if nm in sv.pk and sv.index_of[nm] < npos:
         continue
-      if srng.random() < 0.45:
+      d_ = sv.defaults.get(nm)
+      if type(d_) in (bool, int, float) and srng.random() < 0.4:
+        # explicitly configured with a value EQUAL to the default, of another type
+        kwargs[nm] = {'const': srng.choice([i for i in (1, 2, 4)
+                                            if type(M.CONST_POOL[i]) is not type(d_)])}
+      elif srng.random() < 0.45:
         kwargs[nm] = dyn_child(1)
     if sv.vk and srng.random() < 0.3:
       kwargs['free'] = dyn_child(1)
@@ -290,6 +295,10 @@ def gen_case(world, tier, prop):
           'decoys': rng.random() < 0.5, 'plan': plan}
   if spec is not None:
     case['spec'] = spec
+  if srng.random() < 0.25:
+    # the configuration goes through a copy / deepcopy / pickle round trip
+    # before it is built (nothing observable may change)
+    case['pre_swap'] = srng.choice(['pickle', 'pickle', 'deepcopy', 'copy'])
   return case
 
 
@@ -355,6 +364,12 @@ def run(case):
     mk_m(d)
     mk_i(d)
   mroot, root = mk_m(case['root']), mk_i(case['root'])
+  if case.get('pre_swap') and not any(k in C.short(case['defs'], 10 ** 9)
+                                      for k in ('"n5"', '"uinst"', '"inst"', '"part"')):
+    import pickle
+    root = {'pickle': lambda c: pickle.loads(pickle.dumps(c)), 'deepcopy': copy.deepcopy,
+            'copy': copy.copy}[case['pre_swap']](root)
+    probes['built_from_a_copy'] = 1
   before = C.canon(root)
   feat = features(case)
   built_i, built_m = [], []
